@@ -21,7 +21,9 @@ def make_segment(spec, rev, idx):
     qid = (lambda q: 1000 - q // 10) if rev else (lambda q: q // 10 + 1)
     a = ScoredAlignedPair(AlignedPair(PositionWithSiteId(r0 // 10 + 1, r0), PositionWithSiteId(qid(q0), q0), 0), score / 2)
     b = ScoredAlignedPair(AlignedPair(PositionWithSiteId(r1 // 10 + 1, r1), PositionWithSiteId(qid(q1), q1), 0), score / 2)
-    return AlignmentSegment([a, b], float(score), Peak(idx, 1.), [])
+    # segments of one seed peak lie on one diagonal: segments on (nearly) the same diagonal share their peak, as the builder's segments do
+    diagonal = (r0 + q0) if rev else (r0 - q0)
+    return AlignmentSegment([a, b], float(score), Peak(1000 * round(diagonal / 1000), 1.), [])
 
 
 def key(s):
